@@ -64,7 +64,6 @@ theorem decBody_digits_dot_digits {a b : Str} (ha : allDigits a = true) (hne : a
     simp only [List.cons_append, decBody, ha.1, if_true]
     rw [decAfterInt_digits _ ha.2, decAfterInt_dot]; exact hb
 
-
 /-! ### consequences of the lexical grammar: no exponent, no nan/inf, at most one dot -/
 
 def decChar (c : Char) : Bool := c.isDigit || c == '.'
@@ -131,7 +130,6 @@ theorem isDecimal_chars {s : Str} (h : isDecimal s = true) :
     rcases List.mem_cons.mp hc with rfl | hc
     · exact Or.inr (Or.inr (Or.inr rfl))
     · exact conv c (hb c hc)
-
 
 theorem count_dot_digits {s : Str} (h : allDigits s = true) : s.count '.' = 0 := by
   rw [List.count_eq_zero]; intro hm
@@ -241,8 +239,6 @@ theorem fixedFmt_isDecimal (neg : Bool) (num den p : Nat) : isDecimal (fixedFmt 
     · simpa [hp] using this.1
     · simpa [hp, isDecimal_neg] using this.2
 
-
-
 theorem digits_takeWhile (b : Str) : allDigits (b.takeWhile Char.isDigit) = true := by
   unfold allDigits; exact List.all_takeWhile
 
@@ -291,7 +287,6 @@ theorem nodot_sign {sg : Str} (h : sg = [] ∨ sg = ['-']) : ∀ c ∈ sg, (c !=
   rcases h with rfl | rfl
   · intro c hc; cases hc
   · intro c hc; simp at hc; subst hc; decide
-
 
 theorem beforeDot_nodot {a : Str} (h : ∀ c ∈ a, (c != '.') = true) : beforeDot a = a := by
   unfold beforeDot
@@ -351,7 +346,6 @@ theorem floatToStr_isDecimal (repr : Str) (neg : Bool) (num den p : Nat)
       simp only []
       rw [List.append_assoc]
       exact isDecimal_signed_digits_dot hs h1 h2 (allDigits_take p hf1)
-
 
 /-! ### decimal_to_str -/
 
@@ -476,14 +470,11 @@ theorem decimalToStr_isDecimal {s : Str} (h : isPlainRepr s = true ∨ isSciRepr
         exact List.any_eq_true.mpr ⟨c, hins, hc⟩
       · exact absurd h2 (by decide)
 
-
 /-! ### positivity -/
 
 theorem isDigit_of_digitVal {c : Char} (h : digitVal c ≠ 0) : c.isDigit = true := by
   unfold digitVal at h
   split at h <;> first | decide | exact absurd rfl h
-
-def nz (c : Char) : Bool := digitVal c != 0
 
 theorem foldl_digits_pos : ∀ (s : Str) (acc : Nat), (0 < acc ∨ s.any nz = true) →
     0 < s.foldl (fun acc c => if c.isDigit then 10 * acc + digitVal c else acc) acc
@@ -772,13 +763,6 @@ theorem seq_blocks_ok (es : List ElemP) (cs : List Nat) (hnd : (es.map (·.name)
   obtain ⟨ts, h⟩ := matchElems_blocks es cs hnd hr
   exact matchGroup_seq_once (by rw [matchItems_elems]; exact h)
 
-/-- the element particles of a group whose items are all elements -/
-def elemsOf : Group → List ElemP
-  | .seq items _ _ => items.filterMap (fun | .elem e => some e | _ => none)
-  | .choice items _ _ => items.filterMap (fun | .elem e => some e | _ => none)
-  | .all es => es
-  | .empty => []
-
 /-- "`g` is a plain `{1,1}` sequence of elements with pairwise different names" (decidable on a schema term) -/
 def isPlainSeq (g : Group) : Bool :=
   g == .seq ((elemsOf g).map Item.elem) 1 (some 1) && decide ((elemsOf g).map (·.name)).Nodup
@@ -791,7 +775,6 @@ theorem plainSeq_ok {g : Group} (hg : isPlainSeq g = true) (cs : List Nat) (hr :
   have h2 : ((elemsOf g).map (·.name)).Nodup := by simpa using hg.2
   have := seq_blocks_ok (elemsOf g) cs h2 hr
   rw [← h1] at this; exact this
-
 
 /-- symbolic occurrence counts: what a builder emits for one element particle -/
 inductive Cnt where
